@@ -207,7 +207,7 @@ Lemma validate_CF share ms c t pc :
   CF ms c -> t < length ms -> thr c t = TWorker (mof ms t) pc -> pc <> W0 ->
   decoys c (m_key (mof ms t)) = Some t -> o_valid (objs c t) = false -> o_resolved (objs c t) = true ->
   cov0 (mof ms t) = true -> (m_needs_probe (mof ms t) = false \/ m_live (mof ms t) = false) ->
-  CF ms (set_thr (validate share c t (mof ms t)) t (TWorker (mof ms t) WEnd)).
+  CF ms (set_thr (validate false share c t (mof ms t)) t (TWorker (mof ms t) WEnd)).
 Proof.
   intros CFc Lt Ht NW Hd Hv Hr Hc Hn. set (m := mof ms t) in *.
   unfold validate. rewrite (cf_pol _ _ CFc).
@@ -224,10 +224,10 @@ Proof.
     + unfold wfact. fold m. cbn. rewrite Ed, Eo. intros _. rewrite Hv, Hr, Hc. split; auto.
       unfold admitted. fold m. rewrite B. cbn. now rewrite Bool.andb_false_r.
     + discriminate.
-  - assert (RG : register c1 (m_key m) t =
+  - assert (RG : register false c1 (m_key m) t =
                  add_event (EAnn (m_key m) t (o_resolved (objs c t)))
                    (set_objs c1 (upd (objs c1) t (mkObj true (o_regcount (objs c1 t)) (o_resolved (objs c1 t)))))).
-    { unfold register. rewrite Ed, Hd. cbn. rewrite ?Ed, ?Hd, ?Eo, ?Hv. cbn. rewrite ?Eo. reflexivity. }
+    { unfold register. rewrite Ed, Hd. cbn. rewrite ?Ed, ?Hd, ?Eo, ?Hv, ?Nat.eqb_refl. cbn. rewrite ?Eo. reflexivity. }
     rewrite RG.
     apply CF_own with (c := c) (pc := pc) (evs := EAnn (m_key m) t (o_resolved (objs c t)) :: ev); cbn; auto.
     + intros t' N. rewrite upd_other; auto. now rewrite Eo.
@@ -409,24 +409,25 @@ Proof. destruct e; reflexivity. Qed.
 Lemma fresh_track_ttids c k w : ttids (trace (fresh_track c k w)) = [w] ++ ttids (trace c).
 Proof. reflexivity. Qed.
 
-Lemma register_ttids c k w :
-  exists l, ttids (trace (register c k w)) = l ++ ttids (trace c) /\ Forall (eq w) l.
+Lemma register_ttids pinned c k w :
+  exists l, ttids (trace (register pinned c k w)) = l ++ ttids (trace c) /\ Forall (eq w) l.
 Proof.
   unfold register. destruct (decoys c k) eqn:K.
-  - rewrite K. destruct (o_valid (objs c n)); exists []; split; auto.
-  - destruct (decoys (fresh_track c k w) k); [destruct (o_valid _)|]; exists [w]; split; auto.
+  - rewrite K. destruct (negb pinned && negb (Nat.eqb n w)); [|destruct (o_valid (objs c n))]; exists []; split; auto.
+  - destruct (decoys (fresh_track c k w) k); [destruct (negb pinned && negb (Nat.eqb n w)); [|destruct (o_valid _)]|];
+      exists [w]; split; auto.
 Qed.
 
 Lemma wstep_ttids split share c w m pc c' pc' :
   wstep split share c w m pc = (c', pc') ->
   exists l, ttids (trace c') = l ++ ttids (trace c) /\ Forall (eq w) l.
 Proof.
-  assert (V : exists l, ttids (trace (validate share c w m)) = l ++ ttids (trace c) /\ Forall (eq w) l).
+  assert (V : exists l, ttids (trace (validate split share c w m)) = l ++ ttids (trace c) /\ Forall (eq w) l).
   { unfold validate. set (c1 := if m_detector m && share then add_event (EShare w) c else c).
     assert (E : ttids (trace c1) = ttids (trace c)) by (unfold c1; destruct (m_detector m && share); reflexivity).
     clearbody c1. destruct (m_detector m && at_pol (m_ph_blocked m) (pol c)).
     - exists []. split; auto.
-    - destruct (register_ttids c1 (m_key m) w) as (l & L1 & L2). exists l. cbn. rewrite L1, E. auto. }
+    - destruct (register_ttids split c1 (m_key m) w) as (l & L1 & L2). exists l. cbn. rewrite L1, E. auto. }
   intros H. destruct pc; cbn in H.
   - crush_match H; inversion H; subst; try (exists []; split; auto; fail); exists [w]; split; auto.
   - inversion H; subst. unfold track. destruct (decoys c (m_key m)); exists [w]; split; auto.
